@@ -1170,7 +1170,11 @@ def check_C07(ctx):
     pager_design(ctx)
     run_kv_walk(ctx, "savepoint", tiered(ctx, 40, 400), tiered(ctx, 500, 1500), page_sizes="512,1024,4096", caches="1048576,0")
     run_kv_walk(ctx, "pages", tiered(ctx, 10, 100), 600, page_sizes="512", tag="pages")
-    run_crash(ctx, tiered(ctx, 6, 60), 120, profile="crashsp", tag="crash-savepoints")
+    run_crash(ctx, tiered(ctx, 6, 60), 120, profile="crashsp", tag="crash-savepoints", extra=["--second-every", str(tiered(ctx, 17, 5))])
+    restored = sum(1 for l in open(os.path.join(ctx.work, "crash-savepoints.ndjson")) if '"psp_restored"' in l)
+    ctx.notes["crash_images_with_savepoints_restored"] = restored
+    if restored < 20:
+        raise ToolError(f"vacuity: persistent savepoints were restored on {restored} crash images only")
     k = ctx.notes.get("event_kinds", {})
     ctx.cov["distinct_nontrivial"] += sum(k.get(x, 0) for x in ("spe", "spp", "spdel", "spreste", "sprestp", "spdrop"))
     if k.get("spreste", 0) + k.get("sprestp", 0) < 30:
@@ -1181,7 +1185,8 @@ def check_C07(ctx):
                      "interleaving ephemeral and persistent savepoint create/restore/delete/drop with data transactions of all durabilities, "
                      "aborts and reopen, every result (incl. InvalidSavepoint / ImmediateDurabilityRequired) and all later contents judged by "
                      "TLC; page accounting after every transaction; crash images of histories with persistent savepoints must list exactly the "
-                     "savepoints of the recovered commit point")
+                     "savepoints of the recovered commit point, and on sampled images (every 17th, thorough every 5th) every listed savepoint "
+                     "is restored on a copy of the image and must yield exactly the state it captured")
 
 
 def check_C14(ctx):
